@@ -193,12 +193,16 @@ ElemTemplate::startElement(StylesheetExecutionContext&  executionContext) const
 
     // xsl:call-template does not change the current template rule
     // (XSLT 1.0, section 5.6), so xsl:apply-imports in a named template
-    // still refers to the rule that was matched.
+    // still refers to the rule that was matched.  When the xsl:call-template
+    // is the only child of its parent and has no parameters, the parent
+    // runs the named template directly and is itself the invoker (see
+    // ElemTemplateElement::getFirstChildElemToExecute()).
     const ElemTemplateElement* const    theInvoker =
         executionContext.getInvoker();
 
     if (theInvoker != 0 &&
-        theInvoker->getXSLToken() == StylesheetConstructionContext::ELEMNAME_CALL_TEMPLATE)
+        (theInvoker->getXSLToken() == StylesheetConstructionContext::ELEMNAME_CALL_TEMPLATE ||
+         theInvoker->hasDirectTemplate() == true))
     {
         executionContext.pushCurrentTemplate(executionContext.getCurrentTemplate());
     }
